@@ -95,7 +95,7 @@ PROPS = {
              'still reject; counters cannot be set; union arm accessors are gated on _discriminated; the numeric check '
              'domain equals the struct pack domain; slice handling honours all slice components.',
              'equality with a reference model over all histories',
-             'store-site enumeration with dominance, finite-domain guard evaluation, check-then-act ordering'),
+             'store-site enumeration with dominance, finite-domain guard evaluation, check-then-act ordering', claimed=True),
     'C11': P('copy_from equal and independent',
              'No value reachable from the source is stored into the destination unless immutable on that path or a fresh '
              'object filled by copy_from; every field class reaches a branch whose assumptions hold (zip branch only for '
